@@ -14,8 +14,9 @@ EXPLANATION = (
     "masks and accumulates with +=; combine_pops folds from the highest index down; reorder_pops permutes data and labels by "
     "the same gather over newaxes after validating the permutation; in every branch of Misc.combine_pops each loop variable "
     "ranges over the extent of the axis it indexes; scramble_pop_ids pools by the allele total and re-deals with the "
-    "multivariate hypergeometric weight prod C(t_a,d_a)/C(T,d). Equality with explicit re-indexing on particular arrays is not decided.")
-TECHNIQUE = "index-name correspondence and sibling consistency of parallel bookkeeping sites"
+    "multivariate hypergeometric weight prod C(t_a,d_a)/C(T,d). Equality with explicit re-indexing on particular arrays is not decided."
+    ' scramble_pop_ids and combine_two_pops are decided by abstract execution (the stores they make), not by the form of their loops.')
+TECHNIQUE = "finite-domain abstract execution of the bookkeeping methods (stores and returned values) + index-name correspondence and sibling consistency of parallel sites"
 DECLINED = ["value equality with explicit re-indexing on particular arrays", "commutation with projection/folding as a numerical statement"]
 
 SM = 'dadi.Spectrum_mod'
